@@ -193,21 +193,24 @@ def canon(fn, r):
 # the oracle: the property text, re-implemented in plain Python, on the implementation's output
 HEADS = ['\\citation{', '\\bibdata{', '\\bibstyle{', '\\@input{']
 def _clean_lines(content):
-    """the document as a list of (command index or None, value) per line, or None when some
-    line is not plainly a command line or plainly unrelated (then the text of the property
-    does not say how it is to be read, and the oracle stays silent)"""
-    if '\r' in content or any(ord(c) < 32 and c != '\n' or ord(c) > 126 for c in content):
+    """the reference reader's view of one file: per line (command index or None, value).
+    A command line is a line that STARTS (column 0) with \\citation{ / \\bibdata{ / \\bibstyle{ / \\@input{ ;
+    every other line -- whatever it contains, also command-looking text after a comment sign, after
+    spaces or tabs, or inside another TeX command -- is ignored ("every other line ignored").
+    None when the text of the property does not say how the file is to be read: a line end other than
+    \\n, characters outside printable ASCII + tab, or a command line whose value is not a plain brace-free
+    text closed by the one '}' that ends the line."""
+    if '\r' in content or any((ord(c) < 32 and c not in '\n\t') or ord(c) > 126 for c in content):
         return None
     lines = content.split('\n')
     if lines and lines[-1] == '':
         lines.pop()
     out = []
     for ln in lines:
-        hit = [k for k, h in enumerate(HEADS) if h in ln]
-        if not hit:
+        k = next((k for k, h in enumerate(HEADS) if ln.startswith(h)), None)
+        if k is None:
             out.append((None, ln)); continue
-        k = hit[0]
-        if len(hit) > 1 or not ln.startswith(HEADS[k]) or not ln.endswith('}'):
+        if not ln.endswith('}'):
             return None
         v = ln[len(HEADS[k]):-1]
         if '{' in v or '}' in v or '\\' in v:
@@ -380,12 +383,16 @@ SUBS = [None, '\\citation{A}\n', '\\bibstyle{u}\n\\citation{B,a}\n\\bibdata{g}\n
 MENU_T = ['\\citation{a}', '\\bibstyle{s}', '\\bibdata{d}', '\\@input{b.aux}', '\\citation{A}']
 MENU_B = ['\\citation{A}', '\\bibstyle{t}', '\\bibdata{e}', '\\@input{c.aux}', '\\@input{a.aux}', '\\@input{b.aux}']
 C_FIXED = '\\bibstyle{v}\n\\citation{a,c}\n'
+# unrelated lines that merely CONTAIN a command after column 0: all must be ignored
+GHOST = ['%\\bibdata{old}', '  \\bibstyle{s2}', '\\@writefile{toc}{\\citation{x}}', '\\gdef\\x{\\citation{A}}',
+         '\t\\citation{z}', '% \\@input{b.aux}', '\\relax\\bibdata{g2}', ' \\@input{nosuch.aux}']
+MENU_G = MENU[:7] + [MENU[8]] + GHOST
 
 def doc(lines, term='\n'):
     return ''.join(l + term for l in lines)
 
 KEYS = ['k1', 'K1', 'key', 'Key', 'KEY', 'kEy', 'b', 'B', '*', 'x y', 'Knuth:1984', 'knuth:1984', 'a_b', 'A_b', '', ' a', '\u20ac', 'z9']
-OTHER = ['\\relax ', '\\newlabel{sec:1}{{1}{1}}', '\\bibcite{k1}{1}', '', '% \\citation{c}', ' \\citation{z}', '\\citationx{q}',
+OTHER = GHOST[:6] + ['\\relax ', '\\newlabel{sec:1}{{1}{1}}', '\\bibcite{k1}{1}', '', '% \\citation{c}', ' \\citation{z}', '\\citationx{q}',
          '\\bibstyle {s}', '\\Citation{a}', '\\providecommand\\hyper@newdestlabel[2]{}', '\\@writefile{toc}{\\contentsline {section}{\\numberline {1}Intro}{1}{}}',
          '\\gdef \\@abspage@last{1}', '\\input{b.aux}', 'citation{a}', '\\\\citation{a}']
 ODD = ['\\citation{a}% }', '\\citation{a', '\\@input{', '\\bibstyle{a}\\bibdata{b}', '\\citation{a}\x0b\\bibstyle{z}', '\\citation{{a}}',
@@ -405,7 +412,7 @@ def rand_line(rng, names, me, odd):
         return '\\@input{%s}' % rng.choice(names)
     if odd and r < 0.85:
         return rng.choice(ODD)
-    return rng.choice(OTHER if odd else OTHER[:4])
+    return rng.choice(OTHER if odd else OTHER[:10])
 
 def rand_tree(rng, odd=False):
     """1..4 files; file i inputs only files j > i (acyclic) unless odd"""
@@ -488,6 +495,15 @@ def gen(tier, rng):
                 files = [[TOP, doc(ls)]] + ([['b.aux', sub]] if sub is not None else [])
                 for mode in ((0, 1, 2) if n <= 4 else (0,)):
                     yield ('exhaustive', 1, [mode, files])
+    # -- exhaustive with command-looking text at column > 0 among the unrelated lines (at least one per document)
+    NG = 3 if quick else 4
+    for n in range(1, NG + 1):
+        for ls in itertools.product(MENU_G, repeat=n):
+            if not any(l in GHOST for l in ls):
+                continue
+            files = [[TOP, doc(ls)]] + ([['b.aux', SUBS[2]]] if MENU[8] in ls else [])
+            for mode in ((0, 1, 2) if n <= 3 else (0,)):
+                yield ('exhaustive_ghost', 1, [mode, files])
     # -- exhaustive nesting: a.aux -> b.aux -> c.aux | a.aux | b.aux
     NT, NB = (3, 2) if quick else (3, 3)
     for n in range(1, NT + 1):
@@ -546,12 +562,12 @@ def gen(tier, rng):
 
 RULE = ('exhaustive: every a.aux of <= N lines from a 9-line menu (\\citation{a} {A} {b,a}, two \\bibstyle, two \\bibdata, \\relax, \\@input{b.aux}) x three b.aux '
         '(missing / one citation / style+citation+data) x the three report_error modes (capture, strict, non-strict); every a.aux -> b.aux -> c.aux|a.aux|b.aux nesting '
-        'from 5- and 6-line menus (including cycles); random: trees of 1-4 files nested to depth 3 with citation lists of 1-3 keys in case variants, "*", unrelated TeX lines; '
+        'from 5- and 6-line menus (including cycles); every a.aux of <= 3/4 lines from a 16-line menu whose unrelated lines carry command-looking text at column > 0 (after %, after blanks/tabs, inside \\@writefile / \\gdef); random: trees of 1-4 files nested to depth 3 with citation lists of 1-3 keys in case variants, "*", unrelated TeX lines; '
         'odd: \\r, \\r\\n and missing line ends, half-formed command lines, missing and cyclic inputs; malformed: character-level damage; '
         'plus exhaustive small-scope sweeps of command_re (16 heads x all tails over {{ }} a , \\n}), of the line iteration (all contents over {a \\n \\r \\f U+2028}), '
         'of handler call sequences, and Engine.make_bibliography. distinct = distinct (function, argument); non-trivial = a citation was read or an error was reported/raised.')
-EXHAUSTIVE = {'quick': 'all a.aux of <= 4 lines over a 9-line menu x 3 b.aux x 3 modes; all nestings a(<=3 of 5) -> b(<=2 of 6) -> c; command_re tails <= 5; file contents <= 5; handler sequences <= 4 of 7',
-              'thorough': 'all a.aux of <= 4 lines over a 9-line menu x 3 b.aux x 3 modes, and of 5 lines in capture mode; all nestings a(<=3 of 5) -> b(<=3 of 6) -> c; command_re tails <= 6; file contents <= 6; handler sequences <= 5 of 7'}
+EXHAUSTIVE = {'quick': 'all a.aux of <= 4 lines over a 9-line menu x 3 b.aux x 3 modes; all a.aux of <= 3 lines over a 16-line menu with 8 ghost-command lines x 3 modes; all nestings a(<=3 of 5) -> b(<=2 of 6) -> c; command_re tails <= 5; file contents <= 5; handler sequences <= 4 of 7',
+              'thorough': 'all a.aux of <= 4 lines over a 9-line menu x 3 b.aux x 3 modes, and of 5 lines in capture mode; all a.aux of <= 4 lines over the 16-line ghost menu; all nestings a(<=3 of 5) -> b(<=3 of 6) -> c; command_re tails <= 6; file contents <= 6; handler sequences <= 5 of 7'}
 TRUSTED_BASE = ['modelled (not verified) code: pybtex/auxfile.py (all of it), pybtex/errors.py report_error, the line iteration of io.open in text mode (universal newlines), Engine.make_bibliography lines 45-59',
                 'command_re is a hand-written matcher (Model/Aux.v match_command) with a proved characterisation, compared with the live re object on an exhaustive small-scope sweep',
                 'the file system is a function name -> content; pybtex.io.open_unicode / kpsewhich are exercised through real files in a temporary directory']
